@@ -719,6 +719,17 @@ func (c *compiler) evalCallExpression(node *ast.CallExpression) (interface{}, er
 			mname = i.Value
 		}
 
+		if !rc.IsValid() {
+			return nil, fmt.Errorf("cannot call method '%s' on nil (%s.%s)", mname, node.Callee.String(), mname)
+		}
+
+		if rc.Kind() == reflect.Ptr && rc.IsNil() {
+			if _, ok := rc.Type().Elem().MethodByName(mname); ok {
+				// a method with a value receiver needs the value the pointer points to
+				return nil, fmt.Errorf("cannot call method '%s' on a nil %s (%s.%s)", mname, rc.Type(), node.Callee.String(), mname)
+			}
+		}
+
 		rv = rc.MethodByName(mname)
 		if !rv.IsValid() && rc.Type().Kind() != reflect.Ptr {
 			ptr := reflect.New(reflect.TypeOf(c))
